@@ -83,9 +83,11 @@ type c18Acct struct {
 	addr sdk.AccAddress
 }
 
-func c18Accts() []c18Acct {
+func c18Accts() []c18Acct { return c18AcctsN(c18NAcc) }
+
+func c18AcctsN(n int) []c18Acct {
 	var out []c18Acct
-	for i := 0; i < c18NAcc; i++ {
+	for i := 0; i < n; i++ {
 		priv := secp256k1.GenPrivKeyFromSecret([]byte(fmt.Sprintf("verif-c18-key-%d", i)))
 		out = append(out, c18Acct{priv: priv, addr: sdk.AccAddress(priv.PubKey().Address())})
 	}
@@ -141,8 +143,13 @@ func c18Bootstrap(t *testing.T) c18Genesis { return c18BootstrapWith(t, nil) }
 
 // c18BootstrapWith: extra (if not nil) writes further keeper-level state before the export.
 func c18BootstrapWith(t *testing.T, extra func(app *simapp.App, ctx sdk.Context, accts []c18Acct) error) c18Genesis {
+	return c18BootstrapN(t, c18NAcc, extra)
+}
+
+// c18BootstrapN: the same with nAcc funded accounts (the first c18NAcc keep their roles).
+func c18BootstrapN(t *testing.T, nAcc int, extra func(app *simapp.App, ctx sdk.Context, accts []c18Acct) error) c18Genesis {
 	c18SetConfig()
-	accts := c18Accts()
+	accts := c18AcctsN(nAcc)
 	var gen []authtypes.GenesisAccount
 	var bals []banktypes.Balance
 	for i, a := range accts {
@@ -476,6 +483,8 @@ type c18Gen struct {
 	extSeq  int
 	kinds   map[string]int
 	propSeq int
+	tmpMark string // a short-lived marker (created with a net asset value, later cancelled and deleted)
+	tmpSeq  int
 }
 
 type c18Tx struct {
@@ -662,7 +671,20 @@ func (g *c18Gen) plan() *c18Tx {
 			return nil
 		}
 		den := g.markers[r.Intn(len(g.markers))]
-		switch r.Intn(5) {
+		switch r.Intn(6) {
+		case 5: // a short-lived marker: RemoveMarker must take its net asset values and deny entries along
+			if g.tmpMark == "" {
+				g.tmpSeq++
+				g.tmpMark = fmt.Sprintf("tcoin%d", g.tmpSeq)
+				acc := []markertypes.Access{markertypes.Access_Mint, markertypes.Access_Burn, markertypes.Access_Deposit, markertypes.Access_Admin, markertypes.Access_Delete, markertypes.Access_Transfer}
+				msg := markertypes.NewMsgAddFinalizeActivateMarkerRequest(g.tmpMark, sdkmath.NewInt(500), g.addr(2), g.addr(2), markertypes.MarkerType_RestrictedCoin, false, true, false, nil,
+					[]markertypes.AccessGrant{{Address: g.astr(2), Permissions: acc}}, uint64(100+r.Intn(900)), 500)
+				deny := markertypes.NewMsgUpdateSendDenyListRequest(g.tmpMark, g.addr(2), nil, []string{g.astr(g.pick(10, 11, 12))})
+				return &c18Tx{kind: "marker-temp-add", gas: 900_000, signers: []int{2}, msgs: []sdk.Msg{msg, deny}}
+			}
+			d := g.tmpMark
+			g.tmpMark = ""
+			return &c18Tx{kind: "marker-temp-delete", gas: 900_000, signers: []int{2}, msgs: []sdk.Msg{markertypes.NewMsgCancelRequest(d, g.addr(2)), markertypes.NewMsgDeleteRequest(d, g.addr(2))}}
 		case 0:
 			return &c18Tx{kind: "marker-mint", signers: []int{2}, msgs: []sdk.Msg{markertypes.NewMsgMintRequest(g.addr(2), sdk.NewInt64Coin(den, int64(1+r.Intn(50))))}}
 		case 1:
@@ -697,7 +719,20 @@ func (g *c18Gen) plan() *c18Tx {
 				mdtypes.NewMsgWriteRecordSpecificationRequest(rs, []string{g.astr(o)})}}
 		}
 		party := []mdtypes.Party{{Address: g.astr(o), Role: mdtypes.PartyType_PARTY_TYPE_OWNER}}
-		switch c := r.Intn(6); {
+		switch c := r.Intn(7); {
+		case c == 6 && len(g.scopes) > 2: // delete a scope (its sessions, records, net asset values and index entries go with it)
+			i := r.Intn(len(g.scopes))
+			id := g.scopes[i]
+			cur, found := app.MetadataKeeper.GetScopeWithValueOwner(ctx, mdtypes.ScopeMetadataAddress(id))
+			if !found {
+				return nil
+			}
+			signers, names := []int{o}, []string{g.astr(o)}
+			if vo := g.acctIndex(cur.ValueOwnerAddress); vo >= 0 && vo != o {
+				signers, names = append(signers, vo), append(names, g.astr(vo))
+			}
+			g.scopes = append(append([]uuid.UUID{}, g.scopes[:i]...), g.scopes[i+1:]...)
+			return &c18Tx{kind: "md-scope-delete", gas: 1_500_000, signers: signers, msgs: []sdk.Msg{mdtypes.NewMsgDeleteScopeRequest(mdtypes.ScopeMetadataAddress(id), names)}}
 		case c < 2 || len(g.scopes) == 0:
 			id := g.uuid()
 			sc := mdtypes.Scope{ScopeId: mdtypes.ScopeMetadataAddress(id), SpecificationId: mdtypes.ScopeSpecMetadataAddress(g.sspecID), Owners: party,
@@ -728,7 +763,7 @@ func (g *c18Gen) plan() *c18Tx {
 			return &c18Tx{kind: "md-oslocator", signers: []int{o}, msgs: []sdk.Msg{mdtypes.NewMsgBindOSLocatorRequest(loc)}}
 		default:
 			id := g.scopes[r.Intn(len(g.scopes))]
-			cur, found := app.MetadataKeeper.GetScope(ctx, mdtypes.ScopeMetadataAddress(id))
+			cur, found := app.MetadataKeeper.GetScopeWithValueOwner(ctx, mdtypes.ScopeMetadataAddress(id))
 			if !found {
 				return nil
 			}
@@ -1018,6 +1053,11 @@ func TestC18(t *testing.T) {
 		c18ExportImport(t, r, w, label, ref, nPerturb)
 		ref.close()
 	}
+	// second history shape (determinism validation): many accounts, fee-bearing messages with
+	// several distinct fee recipients per block
+	c18FeeShape(t, r, w)
+	// scripted scenario: quarantine record with accepted and unaccepted senders through export / import
+	c18QuarantineCase(t, w)
 	w.Flush(t)
 }
 
